@@ -326,7 +326,12 @@ def match_known(prop, obs):
     for k in load_known():
         if k.get("property") != prop or k.get("status", "open") != "open":
             continue
-        if all(_get(obs, p) == v for p, v in k.get("match", {}).items()):
+        def one(p, v):
+            if p.endswith("^"):      # prefix match on a string field
+                got = _get(obs, p[:-1])
+                return isinstance(got, str) and got.startswith(v)
+            return _get(obs, p) == v
+        if all(one(p, v) for p, v in k.get("match", {}).items()):
             return k
     return None
 
@@ -357,6 +362,12 @@ def finish(ctx, rule, exhaustive=False, extra_cov=None):
         paths.append(p)
         print("VIOLATION property=%s replay=%s" % (ctx.prop, p), flush=True)
         print("  what: %s" % json.dumps(v["what"])[:600], flush=True)
+    summ = {}
+    for v in ctx.violations:
+        key = json.dumps([v["obs"].get("api", v["obs"].get("op", "")), v["what"].get("failed")])
+        summ[key] = summ.get(key, 0) + 1
+    for k2, n in sorted(summ.items(), key=lambda kv: -kv[1])[:15]:
+        log("violation class %s x%d" % (k2, n))
     cov = dict(ctx.cov)
     cov.update({
         "states": ctx.states, "transitions": ctx.transitions,
